@@ -87,6 +87,13 @@ def alias_rules(F, R, d):
         R.ob('C17.resolve', '%s|unbound-alias=>TopicAliasInvalid,no-handler' % d.name, ok_none, 'an unknown alias must end in ProtocolError::violation(TopicAliasInvalid) without reaching the handler')
     # --- bind: from the non-empty edge the handler message is reachable only through a store or an "equal" edge
     ins = [(bi, t) for bi, t in b.calls_to(INSERTS) if bi in reg and bi in b.reachable(nonempty_t, avoid=[empty_t])]
+    # a store through the reference `aliases.get_mut(&alias)` hands out (`*bound = topic`) re-binds in place
+    for bi, j, s_ in b.assigns():
+        if bi in reg and place_proj(s_['lhs']) == ['*'] and bi in b.reachable(nonempty_t, avoid=[empty_t]):
+            for l in Origin(b).of_operand({'cp': {'l': s_['lhs']['l']}}):
+                if l[0] == 'call' and re.search(r'HashMap::<K, V, S, A>::get_mut$', l[1] or '') and isinstance(l[2], int) \
+                        and (call_recv_path(b, b.blocks[l[2]]['term'], 0) or ('',))[-1] == 'aliases':
+                    ins.append((bi, None))
     R.ob('C17.bind', '%s|binding-stores' % d.name, len(ins) >= 1, 'no store into the alias map on the topic+alias edge')
     succ = [list(s) for s in b.succ]
     eq_edges = []
@@ -131,7 +138,7 @@ def alias_rules(F, R, d):
          'the PUBLISH arm can finish (message accepted but dropped, e.g. connection closing) before the topic-alias block ran: the binding carried by that PUBLISH is lost and a later alias-only PUBLISH is refused or resolves to a stale topic',
          b.loc(early[0]) if early else None)
     # --- limit on new bindings
-    vac = [(bi, t) for bi, t in ins if 'VacantEntry' in callee_name(t) or callee_name(t).endswith('HashMap::<K, V, S, A>::insert')]
+    vac = [(bi, t) for bi, t in ins if t is not None and ('VacantEntry' in callee_name(t) or callee_name(t).endswith('HashMap::<K, V, S, A>::insert'))]
     from c16 import cmp_facts_at, val_key
     for bi, t in vac:
         facts = cmp_facts_at(b, bi)
